@@ -1,6 +1,7 @@
 package flushkv
 
 import (
+	"github.com/iotaledger/hive.go/ierrors"
 	"github.com/iotaledger/hive.go/kvstore"
 	"github.com/iotaledger/hive.go/serializer/v2/byteutils"
 )
@@ -8,6 +9,18 @@ import (
 // flushKVStore is a wrapper to any KVStore that flushes changes immediately.
 type flushKVStore struct {
 	store kvstore.KVStore
+}
+
+// flushAfterMutation flushes the store after a mutation that has just been applied to it.
+// If the store was closed in the meantime, the mutation took effect before the store was closed
+// (and closing a store persists what was written to it), so the closure is not an error of the mutation:
+// answering ErrStoreClosed would tell the caller that nothing was written. Every other error is returned.
+func flushAfterMutation(store kvstore.KVStore) error {
+	if err := store.Flush(); err != nil && !ierrors.Is(err, kvstore.ErrStoreClosed) {
+		return err
+	}
+
+	return nil
 }
 
 // New creates a kvstore.KVStore implementation that flushes changes immediately.
@@ -57,7 +70,7 @@ func (s *flushKVStore) Clear() error {
 		return err
 	}
 
-	return s.store.Flush()
+	return flushAfterMutation(s.store)
 }
 
 // Get gets the given key or nil if it doesn't exist or an error if an error occurred.
@@ -71,7 +84,7 @@ func (s *flushKVStore) Set(key kvstore.Key, value kvstore.Value) error {
 		return err
 	}
 
-	return s.store.Flush()
+	return flushAfterMutation(s.store)
 }
 
 // Has checks whether the given key exists.
@@ -85,7 +98,7 @@ func (s *flushKVStore) Delete(key kvstore.Key) error {
 		return err
 	}
 
-	return s.store.Flush()
+	return flushAfterMutation(s.store)
 }
 
 // DeletePrefix deletes all the entries matching the given key prefix.
@@ -94,7 +107,7 @@ func (s *flushKVStore) DeletePrefix(prefix kvstore.KeyPrefix) error {
 		return err
 	}
 
-	return s.store.Flush()
+	return flushAfterMutation(s.store)
 }
 
 // Flush persists all outstanding write operations to disc.
@@ -147,7 +160,7 @@ func (b *batchedMutations) Commit() error {
 		return err
 	}
 
-	return b.store.Flush()
+	return flushAfterMutation(b.store)
 }
 
 // code guards.
